@@ -312,7 +312,8 @@ def mc_property(v, tier, seed, name, prof, fields=mc_suite.ALL_FIELDS, noids=Fal
                 return f"run {k}: the implementation reports Ok but a reference execution breaks the invariant or dead-ends"
         return None
     mc_suite.report_disagreements(v, bad, name, fields, noids, judge_impl=judge_impl)
-    if refenum:
+    if refenum or any("refenum" in lines for _, lines in scen):
+        # (scenarios of extra generators and of the corpus may carry their own `refenum` line)
         n += judge_against_reference(v, scen, impl, model, name, d1_text)
     if cross:
         n += judge_cross(v, scen, impl, model, name, "strategies / cache modes", d1_text)
@@ -492,3 +493,27 @@ def replay(v, path):
     if d:
         print("DIFF:", d)
         v.violation("replay.txt", open(path).read())
+
+
+def gen_staged_gate(rng, tier):
+    """C16/C03: a later stage whose callback changes some collected start states and leaves others as they are.  A process ignores
+    the local message `go` until its warm-up timer has fired; the first stage collects every state (before and after the
+    firing), the second stage sends `go` in its callback: from the start states after the firing it is handled, and what
+    follows is reachable from those start states only.  (A start state that an earlier run of the same stage merely passed
+    through has not been explored *after the callback*.)"""
+    out = []
+    for i in range(12 if tier == "quick" else 200):
+        two = rng.random() < 0.6
+        k = rng.randint(1, 2)
+        lines = ["refenum", "node n0"] + (["node n1"] if two else []) + ["proc p0 n0", f"proc p1 {'n1' if two else 'n0'} rec"]
+        lines += [f"rule p0 0 L:m0 1 T:t0:{k}", "rule p0 1 T:t0 2", f"rule p0 2 L:m1 3 S:m2:=x:p1 L:m3:=y",
+                  "rule p1 0 M:m2 1 L:m4:$"]
+        if rng.random() < 0.5:
+            lines.append("rule p0 1 L:m1 1")        # explicitly ignored before the firing
+        lines += ["cb local p0 m0 =a", f"run {rng.choice(['dfs', 'bfs'])} {rng.choice(['full', 'partial', 'disabled'])} inv=none goal=noev prune=none collect=always",
+                  "cb local p0 m1 =a",
+                  f"runfrom {rng.choice(['dfs', 'bfs'])} {rng.choice(['full', 'partial', 'full', 'disabled'])} inv=none goal=noev prune=none collect={rng.choice(['noev', 'always', 'out:p1:1'])}"]
+        if rng.random() < 0.4:
+            lines += ["cb net reset", f"runfrom {rng.choice(['dfs', 'bfs'])} full inv=none goal=noev prune=none collect=none"]
+        out.append((f"sg{i}", lines))
+    return out
